@@ -161,6 +161,16 @@ def run(ctx):
             cnt = {}
 
             def chooser(interp, node, cond):
+                why = getattr(cond, "why", None)
+                if why == "isclose" or (isinstance(why, tuple) and why and why[0] == "allclose"):
+                    # the zero / breakdown / stopping tests of the core routine are exact comparisons; a tolerance test (default
+                    # |a-b| <= 1e-8 + 1e-5|b|) declares a nearly invariant Krylov space invariant and ends the cycle early
+                    ctx.ob("C04.D3.exact-tests", f"{label}: tolerance test in the Krylov core at {interp.where(node)}", False,
+                           "a branch of the Arnoldi / least-squares cycle is decided by np.isclose / np.allclose instead of an exact "
+                           "comparison: a nearly (not exactly) invariant Krylov space is treated as a lucky breakdown and an "
+                           "unconverged iterate is returned", where=f_core.where, construct="tolerance test decides a core branch",
+                           loc=interp.where(node))
+                    raise ModelError("tolerance test in the Krylov core (reported)")
                 parts = cond_canon(cond)
                 kind = None
                 if parts:
